@@ -27,8 +27,10 @@ def recheck(sid):
     dst = os.path.join(VERIF, "seeded", sid)
     meta = json.load(open(os.path.join(dst, "meta.json")))
     checks = [c.lower() for c in meta["checks"]]
+    meta["checks_before"] = meta["checks"]
     meta["checks"] = {}
     run_checks(sid, dst, checks, meta)
+    meta.pop("checks_before", None)
     with open(os.path.join(dst, "meta.json"), "w") as f:
         json.dump(meta, f, indent=1)
 
@@ -82,8 +84,17 @@ def run_checks(sid, dst, checks, meta):
         sys.exit(2)
     rc, out = sh("git -C %s apply %s" % (repo, os.path.join(dst, "patch.diff")))
     if rc != 0:
-        print("patch does not apply to /repo: " + out)
-        sys.exit(2)
+        # written against an earlier tree (a later fix: commit touched the same lines): merge it
+        sh("git -C %s checkout -- ." % repo)
+        rc, out2 = sh("git -C %s apply -3 %s" % (repo, os.path.join(dst, "patch.diff")))
+        sh("git -C %s reset -q" % repo)
+        if rc != 0 or "<<<<<<<" in sh("git -C %s diff" % repo)[1]:
+            sh("git -C %s checkout -- ." % repo)
+            print("%s: patch does not apply to %s any more (%s); earlier result kept" % (
+                sid, repo, (out + out2).strip().splitlines()[0][:120]))
+            meta["checks"] = dict(meta.get("checks_before") or {})
+            meta["recheck_note"] = "patch conflicts with a later fix commit; result of the original evaluation kept"
+            return
     try:
         for c in checks:
             t0 = time.time()
